@@ -76,9 +76,12 @@ Fixpoint read_uint_loop (p : profile) (items : bytes) (i : N) (ret : N) : outcom
       do s <- (if ret + v <? 2 ^ 64 then Val (ret + v) else match p with Debug => Panic WAdd | Release => Val ((ret + v) mod 2 ^ 64) end);
       read_uint_loop p r (i + 1) s
   end.
+(* since fc1698d (F19 repaired): `else if size > size_of::<usize>() { Err(NumericOverflow) }` between the length test and the loop
+   (usize is 64 bit: 8 bytes) *)
 Definition read_uint_p (p : profile) (data : bytes) (size : nat) : outcome N :=
-  if (length data <? size)%nat then Fail (E "early") else read_uint_loop p (firstn size data) 0 0.
-Definition known_F19 (data : bytes) (size : nat) : bool := (9 <=? size)%nat && (size <=? length data)%nat.
+  if (length data <? size)%nat then Fail (E "early")
+  else if (8 <? size)%nat then Fail (E "overflow")
+  else read_uint_loop p (firstn size data) 0 0.
 
 (* the template predicates with their indexing written out: `&&` short-circuits, so an index is evaluated only when
    everything to its left was true *)
@@ -417,15 +420,13 @@ Definition minimum_value_p (v : vkind) (opret : bool) (prf : option bytes) : out
   | VKExplicit n => Val n
   | VKConf => match prf with None => Val min_value | Some p => minimum_value_conf opret p end end.
 
-(* Transaction::fee_in / all_fees: u64 sums over the fee outputs of one asset, in output order *)
-Fixpoint fee_sum (p : profile) (vals : list N) (acc : N) : outcome N :=
-  match vals with
-  | [] => Val acc
-  | v :: r => if acc + v <? 2 ^ 64 then fee_sum p r (acc + v)
-              else match p with Debug => Panic WAdd | Release => fee_sum p r ((acc + v) mod 2 ^ 64) end end.
-Definition fee_in (p : profile) (outs : list (N * N)) (asset : N) : outcome N :=
-  fee_sum p (map snd (filter (fun o => fst o =? asset) outs)) 0.
-Definition known_F17 (outs : list (N * N)) (asset : N) : bool := 2 ^ 64 <=? fold_right N.add 0 (map snd (filter (fun o => fst o =? asset) outs)).
+(* Transaction::fee_in / all_fees: the explicit u64 values of the fee outputs of one asset, in output order, added with
+   `u64::saturating_add` since 8ea09fb (F17 repaired; before: `+`, panicking or wrapping at 2^64) *)
+Definition U64_MAX : N := 2 ^ 64 - 1.
+Definition sat_add (a b : N) : N := N.min (a + b) U64_MAX.
+Fixpoint fee_sum (vals : list N) (acc : N) : N := match vals with [] => acc | v :: r => fee_sum r (sat_add acc v) end.
+Definition fee_in (outs : list (N * N)) (asset : N) : outcome N :=
+  Val (fee_sum (map snd (filter (fun o => fst o =? asset) outs)) 0).
 
 (* ================================================================================================ src/confidential.rs, src/pset/serialize.rs: commitments from slices *)
 (* Value::from_commitment / Asset::from_commitment / pset Deserialize for PedersenCommitment and Generator hand the slice to
